@@ -60,8 +60,10 @@ pub fn make_input_class(id: String, src: &Source, rng: &mut Rng, c2d_false: bool
     }
     let c2d = c2d_false || rng.chance(1, 3);
     // a separate class: c2d files with n-ary or nodes (multiway decisions), small n only
-    let multiway = !c2d_false && src.n >= 2 && src.n <= 6 && models.is_some() && rng.chance(1, 6);
-    let (format, lines, extra) = if multiway {
+    let multiway = !c2d_false && src.n >= 2 && src.n <= 6 && models.is_some() && rng.chance(1, 4);
+    let (format, lines, extra) = if multiway && rng.coin() {
+        ("d4", emit_d4_multiway(models.as_ref().unwrap(), src.n, rng), "d4 multiway (n-ary or, tautological branches go to t)".to_string())
+    } else if multiway {
         ("c2d", emit_c2d_multiway(models.as_ref().unwrap(), src.n, rng), "c2d multiway (n-ary or)".to_string())
     } else if c2d {
         let co = C2dOpts { keep_true: rng.chance(1, 4), keep_false: c2d_false };
